@@ -81,7 +81,7 @@ CHECKS = {
         level="exploration",
         parts=[
             dict(name="derivations", harness="pkg__secretstore", run="TestVerifC11"),
-            dict(name="concurrent", harness="pkg__secretstore", run="TestVerifC11Conc", variant="sched-secret", gomaxprocs=2, shards={"quick": 4, "thorough": 8}),
+            dict(name="concurrent", harness="pkg__secretstore", run="TestVerifC11Conc", variant="sched-secret", gomaxprocs=2, shards={"quick": 4, "thorough": 8}, race_pass=True),
         ],
         technique="exhaustive enumeration: all ordered account pairs of a 6-key alphabet, all operation sequences to depth 4/5 over derive/export/import/reopen on two real stores, complete import-refusal catalogue (every truncation length, foreign key types, swapped/equal/empty blobs)",
         rule="every element enumerated is executed on real secret stores; distinct = (check kind, case class, outcome)",
